@@ -243,10 +243,10 @@ def mutation_list(draw, chunks):
                 t = types.get(info[i][0])
                 o = draw(st.sampled_from(spec[t].options))
                 v = draw(st.sampled_from(sorted({1, (1 << o.size) - 1})))
-                bm = bytearray(max(ln, o.byte + 1))
+                o2 = draw(st.sampled_from(spec[t].options)) if draw(st.booleans()) else None
+                bm = bytearray(max(ln, o.byte + 1, (o2.byte + 1) if o2 is not None else 0))
                 bm[o.byte] = (v << o.bit) & 0xFF
-                if draw(st.booleans()):
-                    o2 = draw(st.sampled_from(spec[t].options))
+                if o2 is not None:
                     bm[o2.byte] |= (1 << o2.bit) & 0xFF
                 b = bytes(bm)
             muts.append(["opt", i, b.hex()])
